@@ -1075,10 +1075,19 @@ Qed.
 Lemma insert_at_app {A} (x : A) : forall (P Q : list A) k, insert_at (length P + k) x (P ++ Q) = P ++ insert_at k x Q.
 Proof. induction P as [|y r IH]; intros Q k; cbn [length Nat.add app insert_at]; [reflexivity|]. rewrite IH. reflexivity. Qed.
 
+Lemma classify_sd te reg d cc s : classify_in te reg d cc = Some s -> s_d s = d.
+Proof.
+  unfold classify_in. intros H.
+  assert (Hc : classify_reg te reg d cc = Some s) by (destruct (d_shape d); try discriminate H; exact H).
+  clear H. induction reg as [|e r IH]; cbn [classify_reg] in Hc; [discriminate|].
+  destruct (forallb (pred_holds te d cc) (e_tests e)); [injection Hc as <-; reflexivity|apply IH, Hc].
+Qed.
+
 (* the assembled list: providers of the static, literal and invoke groups, then the invoke
    function, then the rest - or a list without a final function, which never binds *)
 Lemma assemble_layout c f0 : assemble c = Ok f0 ->
-  (exists X invS Y, map p_s f0 = X ++ invS :: Y /\ Forall (fun s => nonrun_s s = true) X /\ s_class invS = ClInvoke) \/
+  (exists X invS Y, map p_s f0 = X ++ invS :: Y /\ Forall (fun s => nonrun_s s = true) X /\ s_class invS = ClInvoke /\
+                    s_d invS = bc_invoke c) \/
   Forall (fun s => nonfinal_s s = true) (map p_s f0).
 Proof.
   unfold assemble. set (te := bc_te c).
@@ -1114,6 +1123,7 @@ Proof.
   destruct H1 as (X & -> & HX).
   match goal with |- context [bindr ?F2 _] => destruct F2 as [f2|e|e] eqn:Ef2 end; cbn [bindr]; try discriminate.
   intros H. injection H as <-. rewrite map_map. cbn [mk_prov p_s]. rewrite map_id.
+  assert (Hsd : s_d invS = bc_invoke c) by (eapply classify_sd; exact Einv).
   destruct (existsb _ _) in Ef2; [|injection Ef2 as <-; left; exists X, invS, (snd ba); auto].
   destruct (characterizeFunc te (unused_ret_pd te) (mkCC false true)) as [u|] eqn:Eu; cbn [opt_res bindr] in Ef2; [|discriminate].
   injection Ef2 as <-. set (u' := as_synthetic true false (Some [te_unusedT te]) u).
@@ -1127,7 +1137,7 @@ Proof.
       unfold nonrun_s in Hinvnr. unfold nonfinal_s. apply negb_true_iff, orb_false_iff in Hinvnr. destruct Hinvnr as [_ Hs]. rewrite Hs. reflexivity.
   - left. exists X, invS. rewrite app_length. cbn [length].
     replace (length X + S (S (length Y)) - 1) with (length X + S (length Y)) by lia.
-    rewrite insert_at_app. cbn [insert_at]. eexists. split; [reflexivity|]. split; assumption.
+    rewrite insert_at_app. cbn [insert_at]. eexists. split; [reflexivity|]. split; [assumption|]. split; assumption.
 Qed.
 
 Lemma compiled_back te dn up : forall inc cps, Forall2 (compiled te dn up) inc cps ->
@@ -1169,7 +1179,7 @@ Proof.
     destruct (negb (init_bypass_ok funcs (sl_down0 (allocate_slots funcs ii)))); [discriminate|].
     injection Hp as <-. cbn [pl_funcs pl_invokeIndex]. split; [apply (select_preserves _ _ _ Es)|exact Ei]. }
   destruct Hfuncs as [Hs Hfc]. set (funcs := pl_funcs pl) in *. set (ii := pl_invokeIndex pl) in *.
-  destruct (assemble_layout c f0 Ha) as [(X & invS & Y & El & HX & Hc)|Hnf].
+  destruct (assemble_layout c f0 Ha) as [(X & invS & Y & El & HX & Hc & _)|Hnf].
   - rewrite <- Hs in El.
     assert (Hii : ii <= length X).
     { pose proof (nth_opt_app_at X invS Y) as Hn. rewrite <- El, nth_opt_mapf in Hn.
@@ -1204,14 +1214,6 @@ Print Assumptions runs_after_invoke_no_reorder.
 
 (* ---------- cases without Reorder annotations ---------- *)
 Definition nre (s : sprov) : Prop := d_reorder (s_d s) = false.
-
-Lemma classify_sd te reg d cc s : classify_in te reg d cc = Some s -> s_d s = d.
-Proof.
-  unfold classify_in. intros H.
-  assert (Hc : classify_reg te reg d cc = Some s) by (destruct (d_shape d); try discriminate H; exact H).
-  clear H. induction reg as [|e r IH]; cbn [classify_reg] in Hc; [discriminate|].
-  destruct (forallb (pred_holds te d cc) (e_tests e)); [injection Hc as <-; reflexivity|apply IH, Hc].
-Qed.
 
 Lemma char_one_sd te d l lf ns s : char_one te d l lf ns = Some s -> s_d s = d.
 Proof.
